@@ -47,7 +47,9 @@ SuperOK(k) ==
         ELSE ox[1] = oy[1] /\ oy[1] = oz[1]        \* readiness does not depend on the values
 
 LowPass == {"Sma", "Ema", "Alma", "LaguerreFilter"}
-ConstOK == \/ Cfg.k \notin LowPass \/ HasField(Cfg, "c") \/ Len(hx) = 0 \/ ~OIsSome(ObsOf(hx))      \* (a chain is not a "low-pass member")
+(* a chain counts as low-pass when it is a low-pass member over a low-pass member *)
+LowChain == ~HasField(Cfg, "c") \/ (Len(Cfg.c) = 1 /\ Cfg.c[1].k \in LowPass /\ ~HasField(Cfg.c[1], "c"))
+ConstOK == \/ Cfg.k \notin LowPass \/ ~LowChain \/ Len(hx) = 0 \/ ~OIsSome(ObsOf(hx))
            \/ \E i \in 1..Len(hx) : hx[i] # hx[1]
            \/ (Tally("constant") /\ QClose(OQ(ObsOf(hx)), QFrac(hx[1], Unit), QMul(QPow10Neg(11), QMax(QOne, QAbs(QFrac(hx[1], Unit))))))
 
